@@ -327,7 +327,24 @@ func (gb *gcpBalancer) getConnectionPoolSize() int {
 func (gb *gcpBalancer) newSubConn() {
 	gb.mu.Lock()
 	defer gb.mu.Unlock()
+	gb.newSubConnLocked()
+}
 
+// newSubConnBelowMax creates a new SubConn (see newSubConn) if the pool has capacity (either
+// unlimited or maxSize is not reached) and reports whether the pool had capacity. The size check
+// and the creation are done under the same lock, so concurrent picks cannot exceed maxSize.
+func (gb *gcpBalancer) newSubConnBelowMax() bool {
+	gb.mu.Lock()
+	defer gb.mu.Unlock()
+	if maxSize := gb.cfg.GetChannelPool().GetMaxSize(); maxSize != 0 && len(gb.scRefs) >= int(maxSize) {
+		return false
+	}
+	gb.newSubConnLocked()
+	return true
+}
+
+// newSubConnLocked is newSubConn for callers already holding the mutex lock.
+func (gb *gcpBalancer) newSubConnLocked() {
 	// there are chances the newly created subconns are still connecting,
 	// we can wait on those new subconns.
 	for _, scState := range gb.scStates {
